@@ -347,6 +347,15 @@ pub fn add_trivial_ands(dag: &Dag, rng: &mut Rng) -> Dag {
     Dag { nodes, root: dag.root }
 }
 
+/// d4's own root idiom: node 1 is an or node with a single unlabelled edge to the real root
+/// (d4 labels that edge with the top-level unit literals; without any it is `1 2 0`).
+pub fn with_d4_root(dag: &Dag) -> Dag {
+    let mut nodes = dag.nodes.clone();
+    nodes.push(DNode::Or(vec![(vec![], dag.root)]));
+    let root = nodes.len() - 1;
+    Dag { nodes, root }
+}
+
 /// d4 text; the root is node 1 and the first line.
 pub fn emit_d4(dag: &Dag, opts: &Opts, rng: &mut Rng) -> Vec<String> {
     let mut lines = Vec::new();
